@@ -1,4 +1,5 @@
 import A5.Model.GenericGeo
+import Mathlib.Analysis.SpecialFunctions.Trigonometric.Basic
 import Mathlib.Analysis.SpecialFunctions.Trigonometric.Deriv
 import Mathlib.Analysis.Calculus.Deriv.MeanValue
 import Mathlib.Tactic.Ring
@@ -132,8 +133,8 @@ private theorem hasDerivAt_term (c k φ : ℝ) :
   have h1 : HasDerivAt (fun t => k * t) k φ := by simpa using (hasDerivAt_id φ).const_mul k
   have h2 := (Real.hasDerivAt_sin (k * φ)).comp φ h1
   have h3 := h2.const_mul c
-  convert h3 using 2
-  ring
+  rw [show c * (k * Real.cos (k * φ)) = c * (Real.cos (k * φ) * k) by ring]
+  exact h3
 
 /-- the derivative of the evaluated series -/
 noncomputable def authalicDeriv (c1 c2 c3 c4 c5 c6 φ : ℝ) : ℝ :=
@@ -199,14 +200,53 @@ noncomputable def authalicInverseR : ℝ → ℝ :=
     (coeffR Gen.AUTHALIC_TO_GEODETIC 2) (coeffR Gen.AUTHALIC_TO_GEODETIC 3)
     (coeffR Gen.AUTHALIC_TO_GEODETIC 4) (coeffR Gen.AUTHALIC_TO_GEODETIC 5)
 
+/-- the exact value of the `i`-th generated coefficient, as a rational -/
+def coeffQ (c : List FConst) (i : Nat) : Rat := (c.getD i ⟨0, 0, 0⟩).toRat
+
+/-- `Σ 2k|a_k|` for the series evaluated from table `c`, as an exact rational -/
+def coeffBoundQ (c : List FConst) : Rat :=
+  2 * ratAbs (coeffQ c 0) + 4 * ratAbs (coeffQ c 1) + 6 * ratAbs (coeffQ c 2)
+    + 8 * ratAbs (coeffQ c 3 + coeffQ c 5) + 10 * ratAbs (coeffQ c 4) + 12 * ratAbs (coeffQ c 5)
+
 /-- kernel-checked: `Σ 2k|a_k| < 1/200` for both generated tables (exact rationals) -/
 theorem coeff_sums_small :
-    (let q (i : Nat) : Rat := (Gen.GEODETIC_TO_AUTHALIC.getD i ⟨0, 0, 0⟩).toRat
-     let ab (x : Rat) : Rat := if x < 0 then -x else x
-     2 * ab (q 0) + 4 * ab (q 1) + 6 * ab (q 2) + 8 * ab (q 3 + q 5) + 10 * ab (q 4) + 12 * ab (q 5) < 1 / 200) ∧
-    (let q (i : Nat) : Rat := (Gen.AUTHALIC_TO_GEODETIC.getD i ⟨0, 0, 0⟩).toRat
-     let ab (x : Rat) : Rat := if x < 0 then -x else x
-     2 * ab (q 0) + 4 * ab (q 1) + 6 * ab (q 2) + 8 * ab (q 3 + q 5) + 10 * ab (q 4) + 12 * ab (q 5) < 1 / 200) := by
+    coeffBoundQ Gen.GEODETIC_TO_AUTHALIC < 1 / 200 ∧ coeffBoundQ Gen.AUTHALIC_TO_GEODETIC < 1 / 200 := by
   decide +kernel
+
+theorem ratAbs_eq_abs (q : ℚ) : ((ratAbs q : ℚ) : ℝ) = |(q : ℝ)| := by
+  unfold ratAbs
+  split_ifs with h
+  · rw [abs_of_neg (by exact_mod_cast h)]; push_cast; rfl
+  · rw [abs_of_nonneg (by exact_mod_cast not_lt.mp h)]
+
+theorem coeffBound_cast (c : List FConst) :
+    ((coeffBoundQ c : ℚ) : ℝ) =
+      2 * |coeffR c 0| + 4 * |coeffR c 1| + 6 * |coeffR c 2| + 8 * |coeffR c 3 + coeffR c 5|
+        + 10 * |coeffR c 4| + 12 * |coeffR c 5| := by
+  unfold coeffBoundQ coeffR coeffQ
+  push_cast [ratAbs_eq_abs]
+  rfl
+
+theorem coeffBound_forward :
+    2 * |coeffR Gen.GEODETIC_TO_AUTHALIC 0| + 4 * |coeffR Gen.GEODETIC_TO_AUTHALIC 1|
+      + 6 * |coeffR Gen.GEODETIC_TO_AUTHALIC 2|
+      + 8 * |coeffR Gen.GEODETIC_TO_AUTHALIC 3 + coeffR Gen.GEODETIC_TO_AUTHALIC 5|
+      + 10 * |coeffR Gen.GEODETIC_TO_AUTHALIC 4| + 12 * |coeffR Gen.GEODETIC_TO_AUTHALIC 5| < 1 / 200 := by
+  rw [← coeffBound_cast]
+  have h : (coeffBoundQ Gen.GEODETIC_TO_AUTHALIC : ℚ) < 1 / 200 := coeff_sums_small.1
+  have h' : ((coeffBoundQ _ : ℚ) : ℝ) < ((1 / 200 : ℚ) : ℝ) := Rat.cast_lt.mpr h
+  rw [show ((1 / 200 : ℚ) : ℝ) = 1 / 200 by norm_num] at h'
+  exact h'
+
+theorem coeffBound_inverse :
+    2 * |coeffR Gen.AUTHALIC_TO_GEODETIC 0| + 4 * |coeffR Gen.AUTHALIC_TO_GEODETIC 1|
+      + 6 * |coeffR Gen.AUTHALIC_TO_GEODETIC 2|
+      + 8 * |coeffR Gen.AUTHALIC_TO_GEODETIC 3 + coeffR Gen.AUTHALIC_TO_GEODETIC 5|
+      + 10 * |coeffR Gen.AUTHALIC_TO_GEODETIC 4| + 12 * |coeffR Gen.AUTHALIC_TO_GEODETIC 5| < 1 / 200 := by
+  rw [← coeffBound_cast]
+  have h : (coeffBoundQ Gen.AUTHALIC_TO_GEODETIC : ℚ) < 1 / 200 := coeff_sums_small.2
+  have h' : ((coeffBoundQ _ : ℚ) : ℝ) < ((1 / 200 : ℚ) : ℝ) := Rat.cast_lt.mpr h
+  rw [show ((1 / 200 : ℚ) : ℝ) = 1 / 200 by norm_num] at h'
+  exact h'
 
 end A5.RealGeo
